@@ -4796,12 +4796,19 @@ impl<'a, 'graph> Builder<'a, 'graph> {
       .collect::<Vec<_>>();
 
     for specifier in &specifiers {
-      self.graph.module_slots.remove(specifier);
+      // what was only cached as an asset (a text or bytes import) stays one,
+      // it is not to be parsed as a module and have its imports followed
+      let was_asset = self
+        .graph
+        .module_slots
+        .remove(specifier)
+        .map(|slot| slot.was_external_asset_load())
+        .unwrap_or(false);
       self.load(LoadOptionsRef {
         specifier,
         maybe_range: None,
         maybe_source_phase_referrer: None,
-        is_asset: false,
+        is_asset: was_asset,
         in_dynamic_branch: self.in_dynamic_branch,
         is_root: true,
         maybe_attribute_type: None,
